@@ -38,6 +38,7 @@ ASSUMPTIONS = common.BASE_ASSUMPTIONS + [
 ]
 REAL_VS_STUB = common.REAL_VS_STUB
 QUICK_RUNS = 14000
+O_SLICE_UNITS = 120
 LOOP_BUDGET = 50_000_000
 LONG_RUN_EVERY = 61  # one seed in 61 sends a long homogeneous stretch of stream
 OVERSIZE_EVERY = 47  # one seed in 47 hands parse() an input longer than a U2 length can describe
